@@ -33,8 +33,8 @@ def snap(args, kwargs):
     P = args[0]
     if not isinstance(P, pnd.ge_polyhedron) or numpy.asarray(P).ndim != 2 or getattr(P, "variables", None) is None:
         return None
-    if len(P.variables) != numpy.asarray(P).shape[1]:
-        return None
+    if len(P.variables) != numpy.asarray(P).shape[1] or numpy.asarray(P).shape[1] < 2 or numpy.asarray(P).shape[0] < 1:
+        return None          # a polyhedron without columns or rows (seen in the repository's tests): nothing to say
     A, b, bounds, ids, index = polygen.read(P)
     if not polygen.within_int16(bounds):
         return None
